@@ -57,7 +57,7 @@ def _ev(units, level_text, technique='Verus function contracts + representation 
 PROPS['C06']['ev'] = ['protocol']
 PROPS['C06']['level_note'] = PROTO_NOTE
 PROPS.update({
-    'C01': _ev(['protocol'], 'Unbounded per-function proof: both completion paths remove exactly the named operation and its id bindings and keep wf; '
+    'C01': _ev(['protocol', 'codec'], 'Unbounded per-function proof: both completion paths remove exactly the named operation and its id bindings and keep wf; '
                'every ack handler completes only the operation its packet id names, of the right type and reason-code count (resp_belongs), and '
                'changes nothing otherwise; operation ids are fresh (create_operation never overwrites); the close handler and session handling never resurrect or duplicate an operation. '
                'That complete_operation_with_result/_error invoke the taken one-shot handler exactly once is an assumed contract (a Kani harness for it did not finish in 25 min); E-B counts results per operation. reset() is bounded (E-B).', design_ref='DESIGN.md 3/C01'),
